@@ -21,7 +21,7 @@ LEVEL = "exploration"
 RULE = (
     "(a) Hypothesis: k in 2..5 independent workloads (frame generators of stream_frames / flat_stream_to_frames of either "
     "integration over all physical types, statement-by-statement drivers of stream.triple()/quad() that hand control back "
-    "while rows are pending, and parse_jelly_flat generators; workloads with equal configuration may share one "
+    "while rows are pending, and parse_jelly_flat generators of both integrations (incl. twins: streams with equal stream options and different content); workloads with equal configuration may share one "
     "SerializerOptions object, as callers do) whose steps are interleaved by a drawn schedule owned by the harness; (b) a drawn prior history of 0..5 other streams created, partly used, abandoned or "
     "failed with an exception before the workload runs; oracle: every workload's output (frame bytes / parsed events) is "
     "identical to its solo run in a PRISTINE process (a fresh interpreter forks one child per baseline request, so no "
@@ -40,8 +40,13 @@ ASSUMPTIONS = [
 def workload(draw, pool_stmts):
     kind = draw(st.sampled_from(["ser", "ser", "ser", "parse"]))
     if kind == "parse":
-        return {"type": "parse", "src": draw(scen.stream_source(max_len=6, delimited=True)),
-                "integration": "generic"}
+        if draw(st.booleans()):
+            return {"type": "parse", "src": draw(scen.stream_source(max_len=6, delimited=True)),
+                    "integration": "generic"}
+        # streams from the reference encoder restricted to what rdflib can hold: read by either integration
+        src = draw(scen.e_case(mode="rdflib", max_len=6, delimited=True))
+        src["source"] = "E"
+        return {"type": "parse", "src": src, "integration": draw(st.sampled_from(["generic", "rdflib", "rdflib"]))}
     integration = draw(st.sampled_from(["generic", "rdflib"]))
     phys = draw(st.sampled_from(["TRIPLES", "QUADS", "GRAPHS"]))
     arity = 3 if phys == "TRIPLES" else 4
@@ -99,6 +104,36 @@ def interleave_case(draw):
                     pass
             every[i]["preset"] = t["preset"] = both
             every[i]["share_options"] = t["share_options"] = True
+    # parse twins: two streams with EQUAL stream options (hence equal ParserOptions) and different content, read by the
+    # same integration - whatever a reader keeps per options value must not be shared between them
+    if draw(st.integers(0, 3)) == 0:
+        # make a twin pair certain in a quarter of the cases (GRAPHS streams carry the most reader state)
+        ph = draw(st.sampled_from(["TRIPLES", "QUADS", "GRAPHS", "GRAPHS"]))
+        integ = draw(st.sampled_from(["generic", "rdflib", "rdflib"]))
+        for j in (0, 1):
+            src = draw(scen.e_case(mode="rdflib", max_len=6, delimited=True, phys=ph))
+            src["source"] = "E"
+            wl[j] = {"type": "parse", "src": src, "integration": integ, "force_twin": j == 1}
+        every = history + wl
+    for i in range(1, len(every)):
+        w = every[i]
+        if w["type"] != "parse" or w["src"].get("source") != "E" or not (w.get("force_twin") or draw(st.booleans())):
+            continue
+        cands = [x for x in every[:i] if x["type"] == "parse" and x["src"].get("source") == "E" and x["src"]["mode"] == "rdflib"]
+        if not cands:
+            continue
+        t = cands[-1] if w.get("force_twin") else cands[draw(st.integers(0, len(cands) - 1))]
+        src = draw(scen.e_case(mode="rdflib", max_len=6, delimited=True, phys=t["src"]["phys"]))
+        src["source"] = "E"
+        for key in ("logical", "stream_name"):
+            src[key] = t["src"][key]
+        src["version"] = t["src"]["version"] = max(src["version"], t["src"]["version"])
+        src["sizes"] = t["src"]["sizes"] = draw(gen.preset_for(
+            src["statements"] + t["src"]["statements"], extra_iris=1 if (src["namespaces"] or t["src"]["namespaces"]) else 0,
+            count_string=True))
+        w["src"] = src
+        w["integration"] = t["integration"]
+        w["twin"] = t["twin"] = True
     return {"kind": "interleave", "workloads": wl, "history": history,
             "history_mode": draw(st.lists(st.sampled_from(["abandon", "partial", "fail", "complete"]), min_size=3, max_size=3)),
             "schedule": draw(st.lists(st.integers(0, 4), max_size=60))}
@@ -129,11 +164,13 @@ def make_gen(w, shared=None):
     """A generator yielding comparable output items for the workload."""
     if w["type"] == "parse":
         data, _, _ = scen.source_bytes(w["src"])
-        from pyjelly.integrations.generic.parse import parse_jelly_flat
+        integ = w.get("integration", "generic")
+        parse_jelly_flat = pyj._parse_mod(integ).parse_jelly_flat
+        conv = pyj._from_stmt(integ)
 
         def g():
             for item in parse_jelly_flat(io.BytesIO(data)):
-                yield repr(T.from_generic_stmt(item))
+                yield repr(conv(item))
         return g()
     integ = w["integration"]
     if integ == "generic":
@@ -322,7 +359,9 @@ def body_interleave(case, acc):
         acc.case(case, switches >= 10 and shared_iris, ["workloads_%d" % len(wl), "history_%d" % len(case["history"])]
                  + (["switches_ge_10"] if switches >= 10 else []) + (["shared_iris"] if shared_iris else [])
                  + (["shared_options_object"] if len(shared) < n_sharing else [])
-                 + (["statement_level_steps"] if any(w.get("entry") == "steps" for w in wl) else []))
+                 + (["statement_level_steps"] if any(w.get("entry") == "steps" for w in wl) else [])
+                 + (["parse_twins_equal_options"] if sum(1 for w in wl if w.get("twin")) >= 2 else [])
+                 + (["rdflib_parse"] if any(w["type"] == "parse" and w.get("integration") == "rdflib" for w in wl) else []))
     for i, (g, w) in enumerate(zip(got, want)):
         if g != w:
             return Violation(f"C12:output-depends-on-other-streams:{wl[i]['type']}", f"workload {i} ({wl[i]['type']}, "
